@@ -48,7 +48,7 @@ Qed.
 Print Assumptions C10_delivery_only_to_attached.
 
 Example C10_nonvacuous :
-  concat (snd (run (init true) [EConnect 1%N 7%N false false None (Some (mkWill 9%N 5%N 0)); ESubscribe 7%N 3%N;
+  concat (snd (run (init true) [EConnect 1%N 7%N false false None (Some (mkWill 9%N 5%N 0)); ESubscribe 7%N 6%N;
                                 EConnect 2%N 7%N false false None None; EPublish 40%N 3%N])) =
     [OConnack 1%N false 0%N; OClosed 1%N RTakenOver; OWill 7%N 9%N; OConnack 2%N true 0%N; ODeliver 2%N 40%N] /\
   concat (snd (run (init false) [EConnect 1%N 7%N false false None None; EConnect 2%N 7%N false false None None])) =
